@@ -382,6 +382,38 @@ def check_region_level(chk):
     return n
 
 
+def check_range_parameters(chk, prefix=""):
+    """combineSfuncs blends towards the orthogonal spacing over a range that varies radially: contours inside the separatrix use the *_range_inner
+    parameters, contours outside use *_range_outer -- at BOTH ends of the region alike (a region's start is its mirror image's end).  Metamorphic:
+    on the innermost contour the spacing function does not depend on any *_range_outer option but does on *_range_inner; vice versa outermost."""
+    from corpus import nonorth
+    vals = {"nonorthogonal_target_all_poloidal_spacing_range": 0.1, "nonorthogonal_xpoint_poloidal_spacing_range": 0.05}
+    n = 0
+    for cname, cfg in (("lsn_nonorth", tok("c10_rng_lsn", "lsn", nonorth(SN))), ("usn_nonorth", tok("c10_rng_usn", "usn", nonorth(SN)))):
+        rc, res, o, e = common.run_impl_json("impl/spacing_region.py", dict(mode="ranges", cfg=cfg, values=vals, scale=3.0), timeout=600)
+        if res is None:
+            chk.tie_broken("impl/spacing_region.py:ranges", f"implementation run failed rc={rc}: {(o + e)[-1200:]}")
+            continue
+        for rname, d in res.items():
+            F = d["funcs"]
+            for cont, own, other in (("innermost", "scaled_inner", "scaled_outer"), ("outermost", "scaled_outer", "scaled_inner")):
+                b, x_own, x_other = F.get("base:" + cont), F.get(own + ":" + cont), F.get(other + ":" + cont)
+                if b is None or any(isinstance(v, dict) for v in (b, x_own, x_other)):
+                    continue
+                b, x_own, x_other = np.array(b), np.array(x_own), np.array(x_other)
+                n += 2 * b.size
+                d_other = float(np.max(np.abs(b - x_other))) / d["L"]
+                d_own = float(np.max(np.abs(b - x_own))) / d["L"]
+                if d_other > 1e-12:
+                    k = int(np.argmax(np.abs(b - x_other)))
+                    chk.fail(f"{prefix}combined-weights:{cont}-contour-uses-{other.split('_')[1]}-range:{'lower' if k < b.size // 2 else 'upper'}-end",
+                             f"the combined spacing function of the {cont} contour of a region changes when only the *_range_{other.split('_')[1]} options change: one end of the region reads the range parameter of the wrong side of the separatrix (the two ends of a region must be treated alike: a region's start is the end of its mirror image)",
+                             dict(equilibrium=cname, region=rname, kind=d["kind"], contour=cont, scaled_options=[k2 + "_" + other.split("_")[1] for k2 in vals], index_of_largest_change=k / 2.0, change_over_length=d_other))
+                if d_own < 1e-6:
+                    chk.tie_broken("oracle:range-parameters", f"{cname} {rname} {cont}: scaling the {own} parameters does not change the function (the metamorphic test is vacuous)")
+    return n
+
+
 def run(chk):
     np.seterr(all="ignore")
     tr = translate(chk)
@@ -393,6 +425,7 @@ def run(chk):
     chk.coq()
     n = check_functions(chk, tr)
     n += check_region_level(chk)
+    n += check_range_parameters(chk)
     n += check_grids(chk)
     chk.count(evaluations=n, distinct=n)
     chk.cov["rule"] = ("direct calls of the real constructors with random (length, N, N_norm, end parameters) over all region kinds (wall.X, X.wall, X.X, wall.wall, one-ended, none; monotonic convex / "
